@@ -4,10 +4,9 @@ SPEC = dict(
     id="C10", corr="Corr.C10", driver="h_c10", overlay=False,
     targets=["Properties/C10.vo", "Corr/C10.vo"],
     args=lambda tier, seed: (["-seed", seed, "-n", 1500, "-npick", 250, "-conc", 100] if tier == "quick"
-                             else ["-seed", seed, "-n", 40000, "-npick", 6000, "-conc", 2000]),
+                             else ["-seed", seed, "-n", 15000, "-npick", 2500, "-conc", 1000]),
     search_args=lambda seed: ["-seed", seed, "-n", 3000, "-npick", 600],
     shard=130,
-    # thorough: bigger shards (a shard of 1000 PickEphemeralPort cases evaluates in about 40 s)
 
     patterns={},
     rule="(a) PickEphemeralPort with a scripted tester (accept exactly port p / error at port q / nothing), math/rand seeded so the start offset is known: boundary lattice (offsets 0,1,16000,16001,49534,49535 x positions 0,1,2,count-2,count-1,count/2 and the five positions around offset+i = 65536) then seeded random (offset, position) pairs, half of them on those boundary positions; (b) histories of 1-40 ReservePort (specific and ephemeral) / ReleasePort (held tuple, held tuple under another network list, random tuple) / IsPortAvailable calls plus 6 closing queries on a fresh PortManager over 4 network lists x 2 transports x 3 addresses + wildcard x 6 ports + ephemeral ports; (c) search aid: snapshots of the reservations held simultaneously by 8 goroutines reserving/releasing concurrently (monitor only, tag 8). Non-trivial = at least one grant (histories) / an acceptable port or a tester error exists or the full scan fails (picks); distinct = distinct case lines",
@@ -18,3 +17,13 @@ SPEC = dict(
                  "the random start offset of PickEphemeralPort lies in [0, 49536) (rand.Int31n contract); it is an input of the model",
                  "the correspondence run evaluates the search with the closed form of the probe sequence, proved equal to the modelled arithmetic (pickEphemeralFast_eq)"],
 )
+
+
+def _run(spec, tier, seed):
+    """quick: ~15 shards of 130 cases; thorough: shards of 800 (a shard of 800 PickEphemeralPort
+    cases evaluates in about 35 s, a shard of 800 histories in about 5 s)."""
+    import vlib
+    return vlib.standard_check(dict(spec, shard=130 if tier == "quick" else 800), tier, seed)
+
+
+SPEC["run"] = _run
